@@ -5,6 +5,8 @@
 //!                            | (skip n) | (takewhile p) | (last) | (dflt v) | (takelast n) | (skiplast n)
 //! events:  emit (n v) | emit c | emit (e k)     on the source subject (post-terminal ones included)
 //!          unsub                                 the subscription (a second one is a no-op: the value moved)
+//!          join                                  another, SILENT subscriber joins the source subject (it is never
+//!                                                unsubscribed and never finished): a neighbour of the pipeline
 //!
 //! The probe and every finalizer callback write into ONE log, so the position
 //! of the marker (`F` for k = 0, `F<k>` otherwise) relative to the deliveries
@@ -20,6 +22,17 @@ use crate::val::{fn1, pred, Notif, Val};
 use crate::{Case, Out};
 
 type Log = Arc<Mutex<Vec<String>>>;
+
+/// the silent neighbour of event `join`
+struct Mute;
+impl Observer<Val, i64> for Mute {
+  fn next(&mut self, _v: Val) {}
+  fn error(self, _e: i64) {}
+  fn complete(self) {}
+  fn is_finished(&self) -> bool {
+    false
+  }
+}
 
 struct Probe(Log);
 impl Observer<Val, i64> for Probe {
@@ -99,6 +112,9 @@ macro_rules! impl_suite {
               Notif::Error(e) => s.clone().error(e),
               Notif::Complete => s.clone().complete(),
             }
+          }
+          "join" => {
+            let _ = src.clone().actual_subscribe(Mute);
           }
           "unsub" => {
             for u in subs.iter_mut() {
